@@ -544,9 +544,16 @@ func (g *G) nilHeader(h *History) *History {
 		return h
 	}
 	for i := range h.Ops {
+		if h.Ops[i].Op == "req" && len(h.Ops[i].Hdr) == 0 && g.chance(0.5) {
+			h.Ops[i].NilHeader = true // a request whose Header map was never allocated
+		}
 		for k := range h.Ops[i].Replies {
 			rp := &h.Ops[i].Replies[k]
 			if !rp.Err && !rp.Hang && g.chance(0.4) {
+				if g.chance(0.3) {
+					rp.NilResp = true // (nil, nil): neither a response nor an error
+					continue
+				}
 				rp.Hdr, rp.Trailer, rp.Chunked, rp.NoCL, rp.NilHdr = nil, nil, false, true, true
 			}
 		}
